@@ -347,14 +347,14 @@ fn handle_item(
             let range = range.evaluate(scope.clone())?;
             check_body(body, BodyContext::Control)?;
             for value in range {
-                let scope = ScopeRef::sub(scope.clone());
+                let scope = ScopeRef::sub_flow(scope.clone());
                 scope.define(name.clone(), value)?;
                 handle_body(body, dest, scope, file_context)?;
             }
         }
         Item::While(cond, body) => {
             check_body(body, BodyContext::Control)?;
-            let scope = ScopeRef::sub(scope);
+            let scope = ScopeRef::sub_flow(scope);
             while cond.evaluate(scope.clone())?.is_true() {
                 handle_body(body, dest, scope.clone(), file_context)?;
             }
